@@ -209,6 +209,7 @@ Proof.
   intros [(Hc & Hv & Hs & Ht & H1 & Hh) Hn] Hl. destruct l as [w|w|w|w|n]; cbn [step].
   - (* Start *)
     destruct (known st w) eqn:Ek; [split; [repeat split|]; auto|].
+    assert (Et : (target st <=? 0) = false) by (apply Z.leb_gt; lia). rewrite Et.
     destruct (locked st) eqn:El.
     + split; [unfold Inv, tot in *; cbn; rewrite wokenZ_app, wokenZ_cons; cbn; change (wokenZ []) with 0; repeat split; auto; lia|].
       cbn. unfold ids. rewrite map_app. cbn. apply NoDup_app_snoc; auto. now apply known_false_ids.
@@ -306,7 +307,7 @@ Lemma semv_no_raise st l : InvN st -> (forall n, l <> SetTarget n) ->
   semv (step st l) <= Z.max (semv st) (target st) /\ target (step st l) = target st.
 Proof.
   intros [(Hc & Hv & Hs & Ht & H1 & Hh) Hn] Hl. destruct l as [w|w|w|w|n]; cbn [step].
-  - destruct (known st w); [lia|]. destruct (locked st); [cbn; lia|].
+  - destruct (known st w); [lia|]. destruct (target st <=? 0); [cbn; lia|]. destruct (locked st); [cbn; lia|].
     set (st0 := upd_sem st (value st - 1) (waiters st)).
     destruct (retarget_spec st0 w H1) as (R1 & R2 & _). rewrite R1, R2. cbn. lia.
   - destruct (find_waiter w (waiters st)) as [[| |]|]; try (cbn; lia).
@@ -346,6 +347,7 @@ Lemma admission_reaches_target st w : 1 <= target st -> known st w = false -> lo
   semv st' = Z.max (semv st) (target st) /\ holders st' = w :: holders st.
 Proof.
   intros H1 Hk Hl. cbn [step]. rewrite Hk, Hl.
+  assert (Et : (target st <=? 0) = false) by (apply Z.leb_gt; lia). rewrite Et.
   destruct (retarget_spec (upd_sem st (value st - 1) (waiters st)) w H1) as (_ & R2 & R3 & _).
   cbn in *. auto.
 Qed.
@@ -360,10 +362,12 @@ Proof.
   unfold release, wake_next. cbn. rewrite Hw. cbn. split; auto. lia.
 Qed.
 
-Lemma zero_refuses st w : target st <= 0 -> known st w = false -> locked st = false ->
+(* whether or not a permit is free (on the original tree only when one was: F18) *)
+Lemma zero_refuses st w : target st <= 0 -> known st w = false ->
   let st' := step st (Start w) in
-  refused st' = w :: refused st /\ holders st' = holders st /\ nhold st' = nhold st.
+  refused st' = w :: refused st /\ holders st' = holders st /\ nhold st' = nhold st /\
+  waiters st' = waiters st /\ value st' = value st /\ semv st' = semv st.
 Proof.
-  intros Ht Hk Hl. cbn [step]. rewrite Hk, Hl. unfold retarget. cbn.
-  assert (E : (target st <=? 0) = true) by (apply Z.leb_le; lia). rewrite E. cbn. auto.
+  intros Ht Hk. cbn [step]. rewrite Hk.
+  assert (E : (target st <=? 0) = true) by (apply Z.leb_le; lia). rewrite E. cbn. repeat split; reflexivity.
 Qed.
